@@ -161,7 +161,7 @@ def py_stack(limit=12):
     return tuple(out)
 
 
-def _canon(v, now, tx_mask=True):
+def _canon(v, now, tx_mask=True, depth=2):
     if isinstance(v, asyncio.Future):
         return ('fut', v._state)
     if isinstance(v, asyncio.Lock):
@@ -179,7 +179,27 @@ def _canon(v, now, tx_mask=True):
     if hasattr(v, 'request') and hasattr(v, 'validator'):
         r = v.request
         return ('cmd', type(v).__name__, r.hex())
+    # containers and sensor definitions are part of the state: a cache or memo added to an object must not be merged away
+    if depth > 0:
+        if isinstance(v, (set, frozenset)):
+            return ('set', tuple(sorted(repr(_canon(x, now, tx_mask, depth - 1)) for x in v)))
+        if isinstance(v, dict):
+            return ('dict', tuple(sorted((repr(_canon(k, now, tx_mask, depth - 1)), repr(_canon(x, now, tx_mask, depth - 1)))
+                                         for k, x in v.items())))
+        if isinstance(v, (list, tuple)):
+            return (type(v).__name__, tuple(_canon(x, now, tx_mask, depth - 1) for x in v))
+    if hasattr(v, 'id_') and hasattr(v, 'offset'):
+        own = tuple(sorted((k, x) for k, x in vars(v).items()
+                           if k not in ('id_', 'offset', 'name') and isinstance(x, (int, float, str, bool, type(None)))))
+        return ('sensor', type(v).__name__, v.id_, v.offset, own)
+    if isinstance(v, (set, frozenset, dict, list, tuple)):
+        return (type(v).__name__, len(v))
     return type(v).__name__
+
+
+def obj_state(o, now=0.0):
+    """Canonical form of ALL instance attributes of an object (containers and sensor definitions included)."""
+    return tuple((k, _canon(v, now, True, 3)) for k, v in sorted(vars(o).items()) if k != 'protocol' and k != '_protocol')
 
 
 def fingerprint(loop, objs, extra=()):
@@ -195,7 +215,7 @@ def fingerprint(loop, objs, extra=()):
                     type(v).__name__.startswith('ModbusTcp'):
                 v = ('cmd', type(v).__name__, v.request[2:].hex())  # the tx id is the only masked datum
             else:
-                v = _canon(v, now)
+                v = _canon(v, now, True, 2 if o is objs[0] else 0)
             d.append((k, v))
         parts.append(tuple(d))
     tasks = tuple(sorted(coro_stack(t.get_coro()) for t in asyncio.all_tasks(loop) if not t.done()))
